@@ -281,43 +281,82 @@ theorem sorted_ends {l : List K} {lo hi : K} (hs : l.Pairwise (· ≤ ·)) (hlo 
       · simp only [List.mem_singleton] at hm; exact hm.le
     exact le_antisymm h1 h2
 
-/-- in a sorted list a value that occurs twice occupies two consecutive places: `(e, e)` is one of its windows -/
-theorem window_of_duplicate (e : K) : ∀ l : List K, l.Pairwise (· ≤ ·) → 2 ≤ l.count e → T2.mk e e ∈ windows2 l
-  | [], _, h => by simp at h
-  | [x], _, h => by
-    rw [List.count_singleton] at h
-    split at h <;> omega
-  | x :: y :: rest, hs, h => by
-    rw [List.pairwise_cons] at hs
-    by_cases hx : x = e
-    · subst hx
-      have hc : 1 ≤ (y :: rest).count x := by
-        rw [List.count_cons_self] at h; omega
-      have hmem : x ∈ y :: rest := List.count_pos_iff.1 hc
-      have h1 : x ≤ y := hs.1 y (by simp)
-      have h2 : y ≤ x := by
-        rw [List.mem_cons] at hmem
-        rcases hmem with rfl | hm
-        · exact le_refl _
-        · exact (List.pairwise_cons.1 hs.2).1 x hm
-      have : y = x := le_antisymm h2 h1
-      subst this
-      simp [windows2]
-    · have hc : 2 ≤ (y :: rest).count e := by
-        rw [List.count_cons_of_ne (by simpa using hx)] at h
-        exact h
-      have := window_of_duplicate e (y :: rest) hs.2 hc
-      rw [windows2]
-      exact List.mem_cons_of_mem _ this
+/-! #### `dedup_by` (the repair of `subdivide_offset`: `extremities.dedup_by(|a, b| (*a - *b).abs() < 0.01)` after the sort) -/
 
-/-- the windows that `subdivide_offset` forms from an extremity list containing `e` twice include the zero-length window `(e, e)` -/
-theorem duplicate_window (e lo hi : K) (ext : List K) (h : 2 ≤ ext.count e) :
-    T2.mk e e ∈ windows2 (listSortBy (fun a b => !(decide (a > b))) (([lo] ++ ext) ++ [hi])) := by
-  obtain ⟨hp, hs⟩ := sortPartialCmp_spec (([lo] ++ ext) ++ [hi])
-  apply window_of_duplicate e _ hs
-  rw [hp.count_eq]
-  simp only [List.count_append]
-  omega
+theorem dedupGo_sublist {α : Type} (same : α → α → Bool) : ∀ (l : List α) (last : α), (listDedupByGo same last l).Sublist (last :: l)
+  | [], last => by simp [listDedupByGo]
+  | x :: xs, last => by
+    unfold listDedupByGo
+    split
+    · exact (dedupGo_sublist same xs last).trans ((List.sublist_cons_self x xs).cons_cons last)
+    · exact (dedupGo_sublist same xs x).cons_cons last
+
+theorem dedupGo_head {α : Type} (same : α → α → Bool) : ∀ (l : List α) (last : α), (listDedupByGo same last l).head? = some last
+  | [], last => by simp [listDedupByGo]
+  | x :: xs, last => by
+    unfold listDedupByGo
+    split
+    · exact dedupGo_head same xs last
+    · simp
+
+/-- in the result every element fails `same` against its predecessor (that is why it was kept) -/
+theorem dedupGo_chain {α : Type} (same : α → α → Bool) : ∀ (l : List α) (last : α),
+    (listDedupByGo same last l).IsChain (fun a b => same b a = false)
+  | [], last => by simp [listDedupByGo]
+  | x :: xs, last => by
+    unfold listDedupByGo
+    split
+    · exact dedupGo_chain same xs last
+    · rename_i h
+      rw [List.isChain_cons]
+      refine ⟨?_, dedupGo_chain same xs x⟩
+      intro y hy
+      rw [dedupGo_head] at hy
+      simp only [Option.mem_def, Option.some.injEq] at hy
+      subst hy
+      simpa using h
+
+/-- a final element that is not `same` as any element before it is kept, as the final element -/
+theorem dedupGo_getLast {α : Type} (same : α → α → Bool) (hi : α) : ∀ (init : List α) (last : α),
+    (∀ y ∈ last :: init, same hi y = false) → (listDedupByGo same last (init ++ [hi])).getLast? = some hi
+  | [], last, h => by
+    have := h last (by simp)
+    simp [listDedupByGo, this]
+  | x :: xs, last, h => by
+    rw [List.cons_append]
+    unfold listDedupByGo
+    split
+    · exact dedupGo_getLast same hi xs last (fun y hy => h y (by
+        rw [List.mem_cons] at hy ⊢
+        rcases hy with rfl | hy
+        · exact Or.inl rfl
+        · exact Or.inr (List.mem_cons_of_mem _ hy)))
+    · have ih := dedupGo_getLast same hi xs x (fun y hy => h y (List.mem_cons_of_mem _ hy))
+      have hne : listDedupByGo same x (xs ++ [hi]) ≠ [] := by
+        intro e; rw [e] at ih; simp at ih
+      rw [List.getLast?_cons_of_ne_nil hne]; exact ih
+
+/-- the relation of a chain holds for every window -/
+theorem mem_windows2_of_isChain {α : Type} {R : α → α → Prop} : ∀ {l : List α}, l.IsChain R → ∀ w ∈ windows2 l, R w.t0 w.t1
+  | [], _, w, hw => by simp [windows2] at hw
+  | [_], _, w, hw => by simp [windows2] at hw
+  | a :: b :: rest, h, w, hw => by
+    rw [List.isChain_cons_cons] at h
+    rw [windows2, List.mem_cons] at hw
+    rcases hw with rfl | hw
+    · exact h.1
+    · exact mem_windows2_of_isChain h.2 w hw
+
+/-- both ends of a window are elements of the list -/
+theorem mem_of_mem_windows2 {α : Type} : ∀ {l : List α} (w : T2 α α), w ∈ windows2 l → w.t0 ∈ l ∧ w.t1 ∈ l
+  | [], w, hw => by simp [windows2] at hw
+  | [_], w, hw => by simp [windows2] at hw
+  | a :: b :: rest, w, hw => by
+    rw [windows2, List.mem_cons] at hw
+    rcases hw with rfl | hw
+    · simp
+    · have := mem_of_mem_windows2 w hw
+      exact ⟨List.mem_cons_of_mem _ this.1, List.mem_cons_of_mem _ this.2⟩
 
 end sorting
 
